@@ -1031,3 +1031,58 @@ V('c07-kbstr-message-fstring', 'C07', 'C07.R11',
   (OBJ, "                _format(\"WBEM URI has an invalid format for its keybindings: \"\n                        \"{0!A}\", keybindings_str))",
    "                _format(\"WBEM URI has an invalid format for its keybindings: \"\n                        f\"{keybindings_str!a}\"))"),
   '')
+
+# ---- round j rules ----------------------------------------------------------
+V('c03-array-kind-from-last-item', 'C03', 'C03.R10',
+  ('pywbem/_cim_operations.py',
+   "                if any(ref_items):\n                    if not all(ref_items):\n",
+   "                if obj and ref_items[-1]:\n                    if not ref_items[0]:\n"),
+  'array-kind-by-some-items')
+V('c14-pull-empty-shortcut', 'C14', 'C14.R17',
+  ('pywbem_mock/_mainprovider.py',
+   "        return self._pull_response('PullInstances',\n",
+   "        if not self.enumeration_contexts:\n            return ([], 'TRUE', '')\n        return self._pull_response('PullInstances',\n"),
+  'answer-without-context')
+V('c12-getclass-ignores-localonly', 'C12', 'C12.R14',
+  ('pywbem_mock/_mainprovider.py',
+   "                           local_only=LocalOnly,\n                           include_qualifiers=IncludeQualifiers,\n                           include_classorigin=IncludeClassOrigin)\n            for cln in clns]",
+   "                           include_qualifiers=IncludeQualifiers,\n                           include_classorigin=IncludeClassOrigin)\n            for cln in clns]"),
+  'parameter-ignored')
+V('c02-qualifier-handler-valueerror-only', 'C02', 'C02.R14',
+  ('pywbem/_tupleparse.py',
+   "                toinstance=toinstance, translatable=translatable)\n        except (TypeError, ValueError) as exc:",
+   "                toinstance=toinstance, translatable=translatable)\n        except ValueError as exc:", 2, 0),
+  'handler-misses-TypeError')
+V('c17-property-handler-typeerror-only', 'C17', 'C17.R12',
+  ('pywbem/_tupleparse.py',
+   "                toinstance=toinstance, translatable=translatable)\n        except (TypeError, ValueError) as exc:",
+   "                toinstance=toinstance, translatable=translatable)\n        except TypeError as exc:", 2, 1),
+  'handler-misses-ValueError')
+V('c02-iparamvalue-truthy-guard', 'C02', 'C02.R13',
+  ('pywbem/_tupleparse.py', "        if isinstance(child, str) and \\\n                _name.lower() in (",
+   "        if child is not None and \\\n                _name.lower() in ("),
+  'AttributeError')
+V('c05-eq-item-prefix', 'C05', 'C05.R2',
+  ('pywbem/_utils.py', "    if item2 is None:\n        return False\n    return item1 == item2\n",
+   "    if item2 is None:\n        return False\n    if isinstance(item1, tuple):\n        return item1[:len(item2)] == item2\n    return item1 == item2\n"),
+  'partial-comparison')
+V('c06-offset-pattern-two-digits-plus', 'C06', 'C06.R7',
+  ('pywbem/_cim_types.py', "r'([+|-])(\\d{3})')", "r'([+|-])([01]\\d{2})')"),
+  'digit-range')
+V('c11-warn-after-delete', 'C11', 'C11.R1',
+  ('pywbem_mock/_providerdispatcher.py',
+   "        # Verify provider method result.\n        assert isinstance(result, CIMInstanceName)\n\n        return result\n",
+   "        # Verify provider method result.\n        assert isinstance(result, CIMInstanceName)\n        warnings.warn('created', ToleratedSchemaIssueWarning, 1)\n\n        return result\n"),
+  'raise-after-write')
+V('c13-shadow-loop-checks', 'C13', 'C13.R13',
+  ('pywbem_mock/_instancewriteprovider.py',
+   "            new_instance.path = path\n            self.add_new_instance(new_instance)\n",
+   "            if path is None:\n                raise CIMError(CIM_ERR_INVALID_PARAMETER, 'no path')\n            new_instance.path = path\n            self.add_new_instance(new_instance)\n"),
+  'check-inside-write-loop')
+V('c09-createclass-dep-case-sensitive', 'C09', 'C09.R13',
+  ('pywbem/_mof_compiler.py', "                    ccname = cc.classname.lower()\n", "                    ccname = cc.classname\n"),
+  'case')
+V('c04-real-suffix-after-exponent', 'C04', 'C04.R15',
+  ('pywbem/_cim_types.py', "            parts = s.split('E')\n            parts[0] = parts[0] + '.0'\n            s = 'E'.join(parts)\n        return s\n    elif isinstance(obj, (Real64, float)):",
+   "            s = s + '.0'\n        return s\n    elif isinstance(obj, (Real64, float)):"),
+  'not-readable')
